@@ -312,10 +312,20 @@ def accept_edge(b, sw, tgt, can):
                 if t['k'] == 'goto':
                     j = t['t']
                     continue
-                if t['k'] == 'switch' and t['o'].get('l') == loc:
+                if t['k'] == 'switch':
+                    val2 = None
+                    if t['o'].get('l') == loc:
+                        val2 = val
+                    else:
+                        # `!matches!(..)`: the switch operand is Not(loc) computed in this block
+                        for s2 in b.blocks[j]['s']:
+                            if s2['d']['l'] == t['o'].get('l') and s2['r']['k'] == 'un' and s2['r']['op'] == 'Not' and s2['r']['o'][0].get('l') == loc:
+                                val2 = 1 - val
+                    if val2 is None:
+                        break
                     nxt = None
                     for v, bb in t['targets']:
-                        if v == val:
+                        if v == val2:
                             nxt = bb
                     if nxt is None:
                         nxt = t['else']
